@@ -1273,6 +1273,8 @@ class Interp(object):
                 lc, rc = pyconst(l), pyconst(r)
                 if isinstance(lc, (int, float)) and isinstance(rc, (int, float)) and rc != 0:
                     return Rat.const(lc // rc)
+                if self.int_transparent and isinstance(l, Rat) and isinstance(r, Rat):
+                    return l / r            # same convention as int(a / b) under int_transparent
                 return Rat.atom(Fn("floordiv", (l, r)))
             if isinstance(op, ast.Mod):
                 lc, rc = pyconst(l), pyconst(r)
